@@ -433,6 +433,11 @@ func TestVerifC14Cancel(t *testing.T) {
 			if c.Chance(0.3) {
 				opts = append(opts, WithPeerOutboundQueueSize(c.Range(1, 3)))
 			}
+			if c.Chance(0.5) {
+				// a default validator next to the topic validators the workers register: a message then runs through the
+				// several-validators path of the pipeline (contexts, result channel and throttle of its own)
+				opts = append(opts, WithDefaultValidator(func(context.Context, peer.ID, *Message) ValidationResult { return ValidationAccept }))
+			}
 			if err := r.Start(router, opts...); err != nil {
 				c.Inconclusive("node: %v", err)
 				return
